@@ -24,6 +24,10 @@ def cases():
         C.append(('channel-%s-c0' % pub, dict(kind='channel', down=3, up=1, pub=pub, cancel_after=0, credit='max',
                                               ending='flag' if pub != 'manual' else 'complete')))
         C.append(('channel-%s-c1' % pub, dict(kind='channel', down=3, up=0, pub=pub, cancel_after=1, credit='one', ending='flag')))
+    # the peer's direction ends with an ERROR that may still be in flight when cancel() is called
+    C.append(('channel-manual-error-c0', dict(kind='channel', down=1, up=2, pub='manual', cancel_after=0, credit='max', ending='error')))
+    C.append(('channel-manual-error-c1', dict(kind='channel', down=2, up=2, pub='manual', cancel_after=1, credit='one', ending='error')))
+    C.append(('stream-manual-error-c1', dict(kind='stream', down=2, pub='manual', cancel_after=1, credit='one', ending='error')))
     for pub in ('rx3', 'rx4', 'rx3bp', 'rx4bp'):
         C.append(('stream-%s-c0' % pub, dict(kind='stream', down=3, pub=pub, cancel_after=0, credit='max', ending='complete')))
         C.append(('stream-%s-c1' % pub, dict(kind='stream', down=3, pub=pub, cancel_after=1, credit='one', ending='complete')))
